@@ -136,12 +136,13 @@ Transition(e, new) ==
        ELSE e
 
 \* _discover + the discover timer.  SendFaults: the packet cannot be packed, the exception leaves the setter
-\* before the discover timer is made (offers were already cleared, no xid was recorded).
+\* before the discover timer is made (offers were already cleared, no xid was recorded).  IntPortFaults (with
+\* install_flows off, else the setter does not get this far): _send_data trips over the missing portno.
 Discover(e) ==
-  IF Strict \/ IntClock
-  THEN [e EXCEPT !.c.offers = <<>>, !.c.nD = Sat2(@), !.c.tDisc = now + DT,
+  IF ~Strict /\ ~IntClock THEN [e EXCEPT !.c.offers = <<>>, !.fault = "error"]
+  ELSE IF ~Strict /\ e.c.broken THEN [e EXCEPT !.c.offers = <<>>, !.fault = "AttributeError"]
+  ELSE [e EXCEPT !.c.offers = <<>>, !.c.nD = Sat2(@), !.c.tDisc = now + DT,
                  !.tx = Append(@, TxDiscover(now - e.c.start)), !.of = Append(@, "po")]
-  ELSE [e EXCEPT !.c.offers = <<>>, !.fault = "error"]
 
 \* state = INIT.  From NEW: total timer and start time.  From REQUESTING (request timeout, NAK) the documented
 \* intent is "try again"; the code stores the state and then trips its own assertion (RequestTimeoutFaults).
@@ -200,8 +201,12 @@ ExecOffer(e, o, dec, pick) ==
 \* _try_start once the connection is there
 Start(e) ==
   CASE e.c.port = "bad" -> ToError(e)
-    [] e.c.port = "int" /\ ~Strict ->          \* IntPortFaults: listener registered, then AttributeError (portno)
-         [e EXCEPT !.c.lst = TRUE, !.c.broken = TRUE, !.fault = "AttributeError"]
+    [] e.c.port = "int" /\ ~Strict ->          \* IntPortFaults: self.portno is never set
+         IF e.c.fl
+         THEN \* listener registered, then AttributeError while building the first flow: still NEW, no timer
+              [e EXCEPT !.c.lst = TRUE, !.c.broken = TRUE, !.fault = "AttributeError"]
+         ELSE \* no flows to build: INIT is entered, the total timer runs, the DISCOVER cannot be sent
+              ToInit([e EXCEPT !.c.broken = TRUE])
     [] OTHER -> ToInit(e)
 
 ----------------------------------------------------------------------------
@@ -342,18 +347,32 @@ NakStep(x, ch, classes) ==
   /\ Rx("RxNak", [x |-> x, ch |-> ch],
         IF Acts(cls) THEN (IF Strict THEN ToInit(Eff(c)) ELSE FaultEff("NameError")) ELSE Passive(cls))
 
+\* The environment's alphabet for model checking / export.  Where the outcome does not depend on a parameter
+\* (which offer an ignored OFFER carries, what the handlers would have said, chaddr / address of a reply that is
+\* ignored for its xid or state anyway) only one canonical value is enumerated; the step operators themselves
+\* take any value (the trace specification uses them with whatever the driver sent).
+CanonO == CHOOSE o \in Offers : TRUE
+CanonDec == CHOOSE d \in Decs : TRUE
+CanonPick == CHOOSE p \in Picks : TRUE
+CanonCh == CHOOSE h \in ChKinds : h = "me" \/ "me" \notin ChKinds
+CanonYa == CHOOSE y \in YaKinds : y = "req" \/ "req" \notin YaKinds
+PickRelevant(dec, pick) == (c.auto /\ dec # "reject") \/ pick = CanonPick
 Quietly == {"deaf", "ignored"}
-RxOfferFirst(x, o, ch, dec, pick)   == c.st = "INIT" /\ OfferStep(x, o, ch, dec, pick, {"taken"})
-RxOfferMore(x, o, ch, dec, pick)    == c.st # "INIT" /\ OfferStep(x, o, ch, dec, pick, {"taken"})
+RxOfferFirst(x, o, ch, dec, pick)   == c.st = "INIT" /\ PickRelevant(dec, pick) /\ OfferStep(x, o, ch, dec, pick, {"taken"})
+RxOfferMore(x, o, ch, dec, pick)    == c.st # "INIT" /\ PickRelevant(dec, pick) /\ OfferStep(x, o, ch, dec, pick, {"taken"})
 RxOfferIgnored(x, o, ch, dec, pick) == up /\ OfferStep(x, o, ch, dec, pick, Quietly)
 RxAck(x, ch, ya)                    == up /\ AckStep(x, ch, ya, {"taken"})
 RxAckIgnored(x, ch, ya)             == up /\ AckStep(x, ch, ya, Quietly)
 RxNak(x, ch)                        == Strict /\ NakStep(x, ch, {"taken"})
 RxNakIgnored(x, ch)                 == up /\ NakStep(x, ch, Quietly)
+\* a reply that only its chaddr / its address disqualifies (these are ignored in the intended design)
+RxOfferWrongChaddr(x, o, ch)        == x = "D" /\ ch # CanonCh /\ OfferStep(x, o, ch, CanonDec, CanonPick, Quietly)
+RxAckWrongChaddrOrAddr(x, ch, ya)   == x = "R" /\ (ch # CanonCh \/ ya # CanonYa) /\ AckStep(x, ch, ya, Quietly)
+RxNakWrongChaddr(x, ch)             == x = "R" /\ ch # CanonCh /\ NakStep(x, ch, Quietly)
 RxJunk(k) == up /\ Rx("RxJunk", [k |-> k], IF Hears /\ c.broken THEN FaultEff("AttributeError") ELSE Eff(c))
 \* deviations
 NakFaults(x, ch)                      == ~Strict /\ NakStep(x, ch, {"taken", "foreign"})
-ForeignChaddrOffer(x, o, ch, dec, pick) == ~Strict /\ OfferStep(x, o, ch, dec, pick, {"foreign"})
+ForeignChaddrOffer(x, o, ch, dec, pick) == ~Strict /\ PickRelevant(dec, pick) /\ OfferStep(x, o, ch, dec, pick, {"foreign"})
 ForeignChaddrAck(x, ch, ya)           == ~Strict /\ AckStep(x, ch, ya, {"foreign"})
 AckAddrNotChecked(x, ch, ya)          == ~Strict /\ AckStep(x, ch, ya, {"anyaddr"})
 AckBeforeRequestFaults(x, ch, ya)     == ~Strict /\ AckStep(x, ch, ya, {"noreqxid"})
@@ -368,16 +387,20 @@ NextCreate == \E auto \in Autos, port \in PortKinds, fl \in FlowModes :
 NextSwitchUp == SwitchUp \/ SwitchUpBadPort \/ SwitchUpIntPortFaults \/ SwitchUpSendFaults
 NextFireOffer == \E pick \in Picks : FireOfferRequests(pick) \/ FireOfferIdle(pick)
 NextFire == FireDiscover \/ NextFireOffer \/ FireRequest \/ RequestTimeoutFaults \/ FireTotal
-NextRx == \E x \in XKinds, ch \in ChKinds :
-            \/ \E o \in Offers, dec \in Decs, pick \in Picks :
+NextRx == \E x \in XKinds :
+            \/ \E ch \in ChKinds, o \in Offers, dec \in Decs, pick \in Picks :
                  \/ RxOfferFirst(x, o, ch, dec, pick) \/ RxOfferMore(x, o, ch, dec, pick)
-                 \/ RxOfferIgnored(x, o, ch, dec, pick)
-                 \/ ForeignChaddrOffer(x, o, ch, dec, pick) \/ IntPortRxFaults(x, o, ch, dec, pick)
-            \/ \E ya \in YaKinds : \/ RxAck(x, ch, ya) \/ RxAckIgnored(x, ch, ya)
-                                   \/ AckAddrNotChecked(x, ch, ya) \/ AckBeforeRequestFaults(x, ch, ya)
-                                   \/ ForeignChaddrAck(x, ch, ya) \/ IntPortRxFaultsA(x, ch, ya)
-            \/ RxNak(x, ch) \/ RxNakIgnored(x, ch) \/ NakFaults(x, ch)
-            \/ NakBeforeRequestFaults(x, ch) \/ IntPortRxFaultsN(x, ch)
+                 \/ ForeignChaddrOffer(x, o, ch, dec, pick)
+            \/ RxOfferIgnored(x, CanonO, CanonCh, CanonDec, CanonPick)
+            \/ IntPortRxFaults(x, CanonO, CanonCh, CanonDec, CanonPick)
+            \/ \E ch \in ChKinds, ya \in YaKinds :
+                 \/ RxAck(x, ch, ya) \/ AckAddrNotChecked(x, ch, ya) \/ ForeignChaddrAck(x, ch, ya)
+                 \/ RxAckWrongChaddrOrAddr(x, ch, ya)
+            \/ RxAckIgnored(x, CanonCh, CanonYa) \/ AckBeforeRequestFaults(x, CanonCh, CanonYa)
+            \/ IntPortRxFaultsA(x, CanonCh, CanonYa)
+            \/ \E ch \in ChKinds : RxNak(x, ch) \/ NakFaults(x, ch) \/ RxNakWrongChaddr(x, ch)
+            \/ RxNakIgnored(x, CanonCh) \/ NakBeforeRequestFaults(x, CanonCh) \/ IntPortRxFaultsN(x, CanonCh)
+            \/ \E ch \in ChKinds, o \in Offers : RxOfferWrongChaddr(x, o, ch)
 NextRxJunk == \E k \in JunkKinds : RxJunk(k)
 
 Next == NextCreate \/ NextSwitchUp \/ Tick \/ NextFire \/ NextRx \/ NextRxJunk
